@@ -89,3 +89,111 @@ func SpecIPv6Find(d []byte) SpecWalk {
 //@   ensures[terminal] implies(err == nil && !isFragment, !SpecIsExt(nextHeader) && 40 <= offset && offset <= len(packet))
 //@   ensures[fragoff]  implies(err == nil && isFragment, anyFragment && 40 <= offset && offset+8 <= len(packet))
 //@   assigns nothing
+
+// =====================================================================
+// C21 — reject replies are well formed and never answer errors or fragments
+// =====================================================================
+//
+// (The checksum arithmetic is outside this proof: the checksum functions are
+// deterministic functions of the bytes; the fields they fill are not pinned.)
+// Dispatcher: nothing for an empty packet, a version other than 4 and 6, a
+// short header, an IPv4 non-first fragment, an IPv6 packet whose header chain
+// does not resolve or that is a non-first fragment; TCP gets a reset, anything
+// else an ICMP error; a reply never exceeds MaxRejectPacketSize.
+// IPv4 ICMP reply: none for ICMP error messages (types 3, 4, 5, 11, 12);
+// otherwise a 20-byte header (version 4, IHL 5, total length = reply length,
+// TTL 64, protocol 1) from the original destination to the original source,
+// type 3 code 13, then the original header plus at most 8 bytes.
+// IPv4 TCP reset: 40 bytes, addresses and ports swapped, sequence numbers the
+// way netfilter sets them (seq = incoming ack when ACK was set; otherwise
+// ack = incoming seq + SYN + FIN + segment length, with ACK set), RST set,
+// no window, data offset 5.
+// IPv6 replies: none for ICMPv6 error messages (types 1..4); addresses
+// swapped; ICMPv6 type 1 code 1 with at most 1000 bytes of the original; TCP
+// reset of 60 bytes.
+
+func ite[T any](c bool, a, b T) T { return a }
+func sameArray[T any](a, b []T) bool { return true }
+
+//@ func tcpipChecksum
+//@   trusted Internet checksum of the bytes and a seed; reads only (its arithmetic is not part of this proof)
+//@   assigns nothing
+//@ func ipv4PseudoheaderChecksum
+//@   trusted pseudo-header sum; reads only
+//@   assigns nothing
+//@ func ipv6PseudoheaderChecksum
+//@   trusted pseudo-header sum; reads only
+//@   assigns nothing
+
+//@ func ipv4CreateRejectICMPPacket
+//@   props C21
+//@   ghost j int
+//@   requires len(packet) >= 20 && !sameArray(packet, out)
+//@   old ihl = int(packet[0]&0x0f) << 2
+//@   old plen = ite(len(packet) < (int(packet[0]&0x0f)<<2)+8, len(packet), (int(packet[0]&0x0f)<<2)+8)
+//@   ensures[short]   implies(len(packet) < ihl, result == nil)
+//@   ensures[noerror] implies(len(packet) > ihl && old(packet[9]) == 1 && (old(packet[ihl]) == 3 || old(packet[ihl]) == 4 || old(packet[ihl]) == 5 || old(packet[ihl]) == 11 || old(packet[ihl]) == 12), result == nil)
+//@   ensures[room]    implies(28+plen > cap(out), result == nil)
+//@   ensures[len]     implies(result != nil, len(result) == 28+plen && sameArray(result, out) && len(result) <= 96)
+//@   ensures[ip]      implies(result != nil, result[0] == 0x45 && result[1] == 0 && (int(result[2])<<8|int(result[3])) == len(result) && result[4] == 0 && result[5] == 0 && result[6] == 0 && result[7] == 0 && result[8] == 64 && result[9] == 1)
+//@   ensures[addrs]   implies(result != nil, result[12] == old(packet[16]) && result[16] == old(packet[12]) && result[13] == old(packet[17]) && result[17] == old(packet[13]) && result[14] == old(packet[18]) && result[18] == old(packet[14]) && result[15] == old(packet[19]) && result[19] == old(packet[15]))
+//@   ensures[icmp]    implies(result != nil, result[20] == 3 && result[21] == 13 && result[24] == 0 && result[25] == 0 && result[26] == 0 && result[27] == 0)
+//@   ensures[body]    implies(result != nil && 0 <= j && j < plen, result[28+j] == old(packet[j]))
+
+//@ func ipv4CreateRejectTCPPacket
+//@   props C21
+//@   ghost j int
+//@   requires len(packet) >= 20 && !sameArray(packet, out)
+//@   old ihl = int(packet[0]&0x0f) << 2
+//@   ensures[short] implies(len(packet) < ihl+20 || cap(out) < 40, result == nil)
+//@   ensures[len]   implies(result != nil, len(result) == 40 && sameArray(result, out))
+//@   ensures[ip]    implies(result != nil, result[0] == 0x45 && result[1] == 0 && result[2] == 0 && result[3] == 40 && result[4] == 0 && result[5] == 0 && result[6] == 0 && result[7] == 0 && result[8] == 64 && result[9] == 6)
+//@   ensures[addrs] implies(result != nil && 0 <= j && j < 4, result[12+j] == old(packet[16+j]) && result[16+j] == old(packet[12+j]))
+//@   ensures[ports] implies(result != nil && 0 <= j && j < 2, result[20+j] == old(packet[ihl+2+j]) && result[22+j] == old(packet[ihl+j]))
+//@   ensures[flags] implies(result != nil, result[32] == 0x50 && result[33] == ite(old(packet[ihl+13])&0x10 != 0, byte(0x04), byte(0x14)) && result[34] == 0 && result[35] == 0 && result[38] == 0 && result[39] == 0)
+//@   ensures[seq]   implies(result != nil && old(packet[ihl+13])&0x10 != 0 && 0 <= j && j < 4, result[24+j] == old(packet[ihl+8+j]) && result[28+j] == 0)
+//@   ensures[ack]   implies(result != nil && old(packet[ihl+13])&0x10 == 0, result[24] == 0 && result[25] == 0 && result[26] == 0 && result[27] == 0 && (uint32(result[28])<<24|uint32(result[29])<<16|uint32(result[30])<<8|uint32(result[31])) == (uint32(old(packet[ihl+4]))<<24|uint32(old(packet[ihl+5]))<<16|uint32(old(packet[ihl+6]))<<8|uint32(old(packet[ihl+7])))+uint32((old(packet[ihl+13])&2)>>1)+uint32(old(packet[ihl+13])&1)+uint32(len(packet)-ihl)-uint32(old(packet[ihl+12])>>4)<<2)
+
+//@ func ipv6CreateRejectICMPPacket
+//@   props C21
+//@   ghost j int
+//@   requires len(packet) >= 40 && 40 <= offset && offset <= len(packet) && !sameArray(packet, out)
+//@   old plen = ite(len(packet) < 1000, len(packet), 1000)
+//@   ensures[noerror] implies(proto == 58 && len(packet) > offset && old(packet[offset]) >= 1 && old(packet[offset]) <= 4, result == nil)
+//@   ensures[len]     implies(result != nil, len(result) == 48+plen && sameArray(result, out) && len(result) <= MaxRejectPacketSize)
+//@   ensures[ip]      implies(result != nil, result[0] == 0x60 && result[1] == 0 && result[2] == 0 && result[3] == 0 && (int(result[4])<<8|int(result[5])) == 8+plen && result[6] == 58 && result[7] == 64)
+//@   ensures[addrs]   implies(result != nil, result[8] == old(packet[24]) && result[24] == old(packet[8]) && result[9] == old(packet[25]) && result[25] == old(packet[9]) && result[10] == old(packet[26]) && result[26] == old(packet[10]) && result[11] == old(packet[27]) && result[27] == old(packet[11]) && result[12] == old(packet[28]) && result[28] == old(packet[12]) && result[13] == old(packet[29]) && result[29] == old(packet[13]) && result[14] == old(packet[30]) && result[30] == old(packet[14]) && result[15] == old(packet[31]) && result[31] == old(packet[15]))
+//@   ensures[addrs2]  implies(result != nil, result[16] == old(packet[32]) && result[32] == old(packet[16]) && result[17] == old(packet[33]) && result[33] == old(packet[17]) && result[18] == old(packet[34]) && result[34] == old(packet[18]) && result[19] == old(packet[35]) && result[35] == old(packet[19]) && result[20] == old(packet[36]) && result[36] == old(packet[20]) && result[21] == old(packet[37]) && result[37] == old(packet[21]) && result[22] == old(packet[38]) && result[38] == old(packet[22]) && result[23] == old(packet[39]) && result[39] == old(packet[23]))
+//@   ensures[icmp]    implies(result != nil, result[40] == 1 && result[41] == 1 && result[44] == 0 && result[45] == 0 && result[46] == 0 && result[47] == 0)
+//@   ensures[body]    implies(result != nil && 0 <= j && j < plen, result[48+j] == old(packet[j]))
+
+//@ func ipv6CreateRejectTCPPacket
+//@   props C21
+//@   ghost j int
+//@   requires len(packet) >= 40 && 40 <= offset && offset <= len(packet) && !sameArray(packet, out)
+//@   ensures[short] implies(len(packet) < offset+20 || cap(out) < 60, result == nil)
+//@   ensures[len]   implies(result != nil, len(result) == 60 && sameArray(result, out))
+//@   ensures[ip]    implies(result != nil, result[0] == 0x60 && result[1] == 0 && result[2] == 0 && result[3] == 0 && result[4] == 0 && result[5] == 20 && result[6] == 6 && result[7] == 64)
+//@   ensures[addrs] implies(result != nil, result[8] == old(packet[24]) && result[24] == old(packet[8]) && result[9] == old(packet[25]) && result[25] == old(packet[9]) && result[10] == old(packet[26]) && result[26] == old(packet[10]) && result[11] == old(packet[27]) && result[27] == old(packet[11]) && result[12] == old(packet[28]) && result[28] == old(packet[12]) && result[13] == old(packet[29]) && result[29] == old(packet[13]) && result[14] == old(packet[30]) && result[30] == old(packet[14]) && result[15] == old(packet[31]) && result[31] == old(packet[15]))
+//@   ensures[addrs2] implies(result != nil, result[16] == old(packet[32]) && result[32] == old(packet[16]) && result[17] == old(packet[33]) && result[33] == old(packet[17]) && result[18] == old(packet[34]) && result[34] == old(packet[18]) && result[19] == old(packet[35]) && result[35] == old(packet[19]) && result[20] == old(packet[36]) && result[36] == old(packet[20]) && result[21] == old(packet[37]) && result[37] == old(packet[21]) && result[22] == old(packet[38]) && result[38] == old(packet[22]) && result[23] == old(packet[39]) && result[39] == old(packet[23]))
+//@   ensures[ports] implies(result != nil && 0 <= j && j < 2, result[40+j] == old(packet[offset+2+j]) && result[42+j] == old(packet[offset+j]))
+//@   ensures[flags] implies(result != nil, result[52] == 0x50 && result[53] == ite(old(packet[offset+13])&0x10 != 0, byte(0x04), byte(0x14)) && result[54] == 0 && result[55] == 0 && result[58] == 0 && result[59] == 0)
+
+//@ func ipv6CreateRejectPacket
+//@   props C21
+//@   ghost j int
+//@   requires len(packet) >= 40 && !sameArray(packet, out)
+//@   ensures[unresolved] implies(old(!SpecIPv6Find(packet).Ok || SpecIPv6Find(packet).Frag), result == nil)
+//@   ensures[max]        len(result) <= MaxRejectPacketSize
+
+//@ func CreateRejectPacket
+//@   props C21
+//@   ghost j int
+//@   requires !sameArray(packet, out)
+//@   ensures[empty]   implies(len(packet) < 1, result == nil)
+//@   ensures[version] implies(len(packet) >= 1 && old(packet[0])>>4 != 4 && old(packet[0])>>4 != 6, result == nil)
+//@   ensures[short4]  implies(len(packet) >= 1 && old(packet[0])>>4 == 4 && len(packet) < 20, result == nil)
+//@   ensures[short6]  implies(len(packet) >= 1 && old(packet[0])>>4 == 6 && len(packet) < 40, result == nil)
+//@   ensures[frag4]   implies(len(packet) >= 20 && old(packet[0])>>4 == 4 && (old(packet[6])&0x1f != 0 || old(packet[7]) != 0), result == nil)
+//@   ensures[frag6]   implies(len(packet) >= 40 && old(packet[0])>>4 == 6 && old(!SpecIPv6Find(packet).Ok || SpecIPv6Find(packet).Frag), result == nil)
+//@   ensures[max]     len(result) <= MaxRejectPacketSize
